@@ -1187,14 +1187,11 @@ func replayC03(c *fw.Check, path string) {
 	var cs genCase
 	loadReplay(path, &cs)
 	var mu sync.Mutex
-	for i, e := range gen.Catalogue() {
-		if e.Name == cs.Entry {
-			v := gen.Build(e, "replay_", 10000000*(i+1), cs.Choices)
-			fmt.Printf("replay %s %v:\n%s\n", v.Entry, v.Devs, gen.Module([]gen.Variant{v}))
-			fs := &failSet{}
-			bisect(fs, []gen.Variant{v}, c03test(map[string]bool{}, &mu))
-			fs.report(c)
-		}
+	if vs := variantsOfCase(cs); len(vs) > 0 {
+		fmt.Printf("replay %s:\n%s\n", cs.Entry, gen.Module(vs))
+		fs := &failSet{}
+		bisect(fs, vs, c03test(map[string]bool{}, &mu))
+		fs.report(c)
 	}
 	c.Case("a", "a")
 	c.Case("b", "b")
